@@ -592,3 +592,14 @@ func setRoundRule(c *Ctx, id string) {
 		c.R.Ob(rule, "SetRound:all-rounds-up-to-target-inclusive", ok, c.P.Pos(f.F.Pos()), fname(f), "")
 	}
 }
+
+// shared runs rule functions of another property inside the current report under a prefixed id
+// ("C01/C04.R5"): the clause they decide is also a necessary condition of the current property.
+func shared(c *Ctx, from string, fns ...func(*Ctx)) {
+	old := c.R.IDPrefix
+	c.R.IDPrefix = from + "."
+	for _, f := range fns {
+		f(c)
+	}
+	c.R.IDPrefix = old
+}
